@@ -44,12 +44,17 @@ Definition set_compact_record (rec : option bytes) (r : N) (commit_ok : bool) : 
       end
   end.
 
-(* checkCompactRace(compact=true) (scanner.go:596-609, with fix 1f7f45b) *)
+(* checkCompactRace(compact=true) (scanner.go, with fix 1f7f45b and the conditional write), no other compaction
+   in between: a stored revision that is larger or equal is left alone, otherwise the CAS / put-if-absent against
+   the value just read succeeds *)
 Definition race_compact (r : N) (rec : option bytes) : option bytes :=
   match rec with
-  | Some v => if Nat.eqb (length v) 8 && (r <? from_be v) then rec else Some (be64 r)
+  | Some v => if Nat.eqb (length v) 8 && (r <=? from_be v) then rec else Some (be64 r)
   | None => Some (be64 r)
   end.
+
+(* setCompactRevisionAttempts *)
+Definition race_attempts : nat := 3.
 
 Inductive rres := RData | RErr | RPanic.
 
@@ -140,20 +145,21 @@ Fixpoint crun (s : cstate) (ops : list cop) : cstate :=
 Inductive tstate :=
 | TSetGet (rv : N) (n : nat)                          (* ... setCompactRecord's Get *)
 | TSetCommit (val : option bytes) (rv : N) (n : nat)  (* ... the commit of its batch, built against the value read *)
-| TRaceGet (rv : N) (k : nat)                         (* ... checkCompactRace's Get, k ranges to go (k >= 1) *)
-| TRacePut (rv : N) (k : nat).                        (* ... the commit of its unconditional Put *)
+| TRaceGet (rv : N) (k : nat) (a : nat)               (* ... checkCompactRace's Get, k ranges to go (k >= 1), attempt a *)
+| TRacePut (val : option bytes) (rv : N) (k : nat) (a : nat).
+                                                      (* ... the commit of its CAS / put-if-absent against the value read *)
 
 Definition tphase (t : tstate) : cphase :=
-  match t with TSetGet _ _ => PhSetGet | TSetCommit _ _ _ => PhSetCommit | TRaceGet _ _ => PhRaceGet | TRacePut _ _ => PhRacePut end.
+  match t with TSetGet _ _ => PhSetGet | TSetCommit _ _ _ => PhSetCommit | TRaceGet _ _ _ => PhRaceGet | TRacePut _ _ _ _ => PhRacePut end.
 
 Definition trev (t : tstate) : N :=
-  match t with TSetGet rv _ | TSetCommit _ rv _ | TRaceGet rv _ | TRacePut rv _ => rv end.
+  match t with TSetGet rv _ | TSetCommit _ rv _ | TRaceGet rv _ _ | TRacePut _ rv _ _ => rv end.
 
 Inductive tnext := TGo (t : tstate) | TEnd (res : cres).
 
 (* after setCompactRecord: the scans, or the end when there is no range *)
-Definition after_set (rv : N) (n : nat) : tnext := match n with O => TEnd COk | S _ => TGo (TRaceGet rv n) end.
-Definition after_range (rv : N) (k : nat) : tnext := match k with S (S k') => TGo (TRaceGet rv (S k')) | _ => TEnd COk end.
+Definition after_set (rv : N) (n : nat) : tnext := match n with O => TEnd COk | S _ => TGo (TRaceGet rv n 1) end.
+Definition after_range (rv : N) (k : nat) : tnext := match k with S (S k') => TGo (TRaceGet rv (S k') 1) | _ => TEnd COk end.
 
 (* the parked engine call is performed on the record as it is NOW *)
 Definition tstep (rec : option bytes) (t : tstate) : option bytes * tnext :=
@@ -173,12 +179,19 @@ Definition tstep (rec : option bytes) (t : tstate) : option bytes * tnext :=
                 | _ => match rec with None => true | Some _ => false end   (* put-if-absent *)
                 end in
       if ok then (Some (be64 rv), after_set rv n) else (rec, TEnd CErr)
-  | TRaceGet rv k =>
+  | TRaceGet rv k a =>
       match rec with
-      | Some v => if Nat.eqb (length v) 8 && (rv <? from_be v) then (rec, after_range rv k) else (rec, TGo (TRacePut rv k))
-      | None => (rec, TGo (TRacePut rv k))
+      | Some v => if Nat.eqb (length v) 8 && (rv <=? from_be v) then (rec, after_range rv k) else (rec, TGo (TRacePut rec rv k a))
+      | None => (rec, TGo (TRacePut rec rv k a))
       end
-  | TRacePut rv k => (Some (be64 rv), after_range rv k)
+  | TRacePut val rv k a =>
+      let ok := match val with
+                | Some _ => opt_eqb beqb rec val                              (* CAS against the value read *)
+                | None => match rec with None => true | Some _ => false end   (* put-if-absent *)
+                end in
+      if ok then (Some (be64 rv), after_range rv k)
+      else if Nat.leb race_attempts a then (rec, after_range rv k)            (* gives up: this range is not scanned *)
+      else (rec, TGo (TRaceGet rv k (S a)))                                   (* lost compare: re-read, re-compare *)
   end.
 
 Record xstate := mkX { x_c : cstate; x_thr : list (N * tstate) }.
